@@ -21,30 +21,30 @@
 //@ harness: name=call_merge_accepts_honest_rejects_forged_stream props=C04,C14,C07,C08 cap=900 cost=40 sym="previous state: stream (peer/CID selector, any u32 id/generation); current state: each of the 6 kinds in turn (concrete loop), selector, any u32" bound="palette above; 1-byte strings; unwind 8"
 //@ harness: name=call_merge_accepts_honest_rejects_forged_unused props=C04,C14,C07,C08 cap=900 cost=40 sym="previous state: unused (peer/CID selector, any u32 id/generation); current state: each of the 6 kinds in turn (concrete loop), selector, any u32" bound="palette above; 1-byte strings; unwind 8"
 //@ harness: name=call_merge_accepts_honest_rejects_forged_failed props=C04,C14,C07,C08 cap=900 cost=40 sym="previous state: failed (peer/CID selector, any u32 id/generation); current state: each of the 6 kinds in turn (concrete loop), selector, any u32" bound="palette above; 1-byte strings; unwind 8"
-//@ harness: name=call_merge_idempotent_cb_req props=C07 tier=thorough core=0 cap=3000 cost=60 sym="previous state: req (peer/CID selector, any u32 id/generation); current state: each of the 6 kinds in turn (concrete loop), selector, any u32" bound="palette above; 1-byte strings; unwind 8"
-//@ harness: name=call_merge_idempotent_cb_reqid props=C07 tier=thorough core=0 cap=3000 cost=60 sym="previous state: reqid (peer/CID selector, any u32 id/generation); current state: each of the 6 kinds in turn (concrete loop), selector, any u32" bound="palette above; 1-byte strings; unwind 8"
-//@ harness: name=call_merge_idempotent_cb_scalar props=C07 tier=thorough core=0 cap=3000 cost=60 sym="previous state: scalar (peer/CID selector, any u32 id/generation); current state: each of the 6 kinds in turn (concrete loop), selector, any u32" bound="palette above; 1-byte strings; unwind 8"
-//@ harness: name=call_merge_idempotent_cb_stream props=C07 tier=thorough core=0 cap=3000 cost=60 sym="previous state: stream (peer/CID selector, any u32 id/generation); current state: each of the 6 kinds in turn (concrete loop), selector, any u32" bound="palette above; 1-byte strings; unwind 8"
-//@ harness: name=call_merge_idempotent_cb_unused props=C07 tier=thorough core=0 cap=3000 cost=60 sym="previous state: unused (peer/CID selector, any u32 id/generation); current state: each of the 6 kinds in turn (concrete loop), selector, any u32" bound="palette above; 1-byte strings; unwind 8"
-//@ harness: name=call_merge_idempotent_cb_failed props=C07 tier=thorough core=0 cap=3000 cost=60 sym="previous state: failed (peer/CID selector, any u32 id/generation); current state: each of the 6 kinds in turn (concrete loop), selector, any u32" bound="palette above; 1-byte strings; unwind 8"
-//@ harness: name=call_merge_idempotent_ca_req props=C07 tier=thorough core=0 cap=3000 cost=60 sym="previous state: req (peer/CID selector, any u32 id/generation); current state: each of the 6 kinds in turn (concrete loop), selector, any u32" bound="palette above; 1-byte strings; unwind 8"
-//@ harness: name=call_merge_idempotent_ca_reqid props=C07 tier=thorough core=0 cap=3000 cost=60 sym="previous state: reqid (peer/CID selector, any u32 id/generation); current state: each of the 6 kinds in turn (concrete loop), selector, any u32" bound="palette above; 1-byte strings; unwind 8"
-//@ harness: name=call_merge_idempotent_ca_scalar props=C07 tier=thorough core=0 cap=3000 cost=60 sym="previous state: scalar (peer/CID selector, any u32 id/generation); current state: each of the 6 kinds in turn (concrete loop), selector, any u32" bound="palette above; 1-byte strings; unwind 8"
-//@ harness: name=call_merge_idempotent_ca_stream props=C07 tier=thorough core=0 cap=3000 cost=60 sym="previous state: stream (peer/CID selector, any u32 id/generation); current state: each of the 6 kinds in turn (concrete loop), selector, any u32" bound="palette above; 1-byte strings; unwind 8"
-//@ harness: name=call_merge_idempotent_ca_unused props=C07 tier=thorough core=0 cap=3000 cost=60 sym="previous state: unused (peer/CID selector, any u32 id/generation); current state: each of the 6 kinds in turn (concrete loop), selector, any u32" bound="palette above; 1-byte strings; unwind 8"
-//@ harness: name=call_merge_idempotent_ca_failed props=C07 tier=thorough core=0 cap=3000 cost=60 sym="previous state: failed (peer/CID selector, any u32 id/generation); current state: each of the 6 kinds in turn (concrete loop), selector, any u32" bound="palette above; 1-byte strings; unwind 8"
-//@ harness: name=call_merge_idempotent_cc_req props=C07 tier=thorough core=0 cap=3000 cost=60 sym="previous state: req (peer/CID selector, any u32 id/generation); current state: each of the 6 kinds in turn (concrete loop), selector, any u32" bound="palette above; 1-byte strings; unwind 8"
-//@ harness: name=call_merge_idempotent_cc_reqid props=C07 tier=thorough core=0 cap=3000 cost=60 sym="previous state: reqid (peer/CID selector, any u32 id/generation); current state: each of the 6 kinds in turn (concrete loop), selector, any u32" bound="palette above; 1-byte strings; unwind 8"
-//@ harness: name=call_merge_idempotent_cc_scalar props=C07 tier=thorough core=0 cap=3000 cost=60 sym="previous state: scalar (peer/CID selector, any u32 id/generation); current state: each of the 6 kinds in turn (concrete loop), selector, any u32" bound="palette above; 1-byte strings; unwind 8"
-//@ harness: name=call_merge_idempotent_cc_stream props=C07 tier=thorough core=0 cap=3000 cost=60 sym="previous state: stream (peer/CID selector, any u32 id/generation); current state: each of the 6 kinds in turn (concrete loop), selector, any u32" bound="palette above; 1-byte strings; unwind 8"
-//@ harness: name=call_merge_idempotent_cc_unused props=C07 tier=thorough core=0 cap=3000 cost=60 sym="previous state: unused (peer/CID selector, any u32 id/generation); current state: each of the 6 kinds in turn (concrete loop), selector, any u32" bound="palette above; 1-byte strings; unwind 8"
-//@ harness: name=call_merge_idempotent_cc_failed props=C07 tier=thorough core=0 cap=3000 cost=60 sym="previous state: failed (peer/CID selector, any u32 id/generation); current state: each of the 6 kinds in turn (concrete loop), selector, any u32" bound="palette above; 1-byte strings; unwind 8"
-//@ harness: name=call_merge_symmetric_req props=C08 tier=thorough core=0 cap=3000 cost=60 sym="previous state: req (peer/CID selector, any u32 id/generation); current state: each of the 6 kinds in turn (concrete loop), selector, any u32" bound="palette above; 1-byte strings; unwind 8"
-//@ harness: name=call_merge_symmetric_reqid props=C08 tier=thorough core=0 cap=3000 cost=60 sym="previous state: reqid (peer/CID selector, any u32 id/generation); current state: each of the 6 kinds in turn (concrete loop), selector, any u32" bound="palette above; 1-byte strings; unwind 8"
-//@ harness: name=call_merge_symmetric_scalar props=C08 tier=thorough core=0 cap=3000 cost=60 sym="previous state: scalar (peer/CID selector, any u32 id/generation); current state: each of the 6 kinds in turn (concrete loop), selector, any u32" bound="palette above; 1-byte strings; unwind 8"
-//@ harness: name=call_merge_symmetric_stream props=C08 tier=thorough core=0 cap=3000 cost=60 sym="previous state: stream (peer/CID selector, any u32 id/generation); current state: each of the 6 kinds in turn (concrete loop), selector, any u32" bound="palette above; 1-byte strings; unwind 8"
-//@ harness: name=call_merge_symmetric_unused props=C08 tier=thorough core=0 cap=3000 cost=60 sym="previous state: unused (peer/CID selector, any u32 id/generation); current state: each of the 6 kinds in turn (concrete loop), selector, any u32" bound="palette above; 1-byte strings; unwind 8"
-//@ harness: name=call_merge_symmetric_failed props=C08 tier=thorough core=0 cap=3000 cost=60 sym="previous state: failed (peer/CID selector, any u32 id/generation); current state: each of the 6 kinds in turn (concrete loop), selector, any u32" bound="palette above; 1-byte strings; unwind 8"
+//@ harness: name=call_merge_idempotent_cb_req props=C07 tier=thorough core=0 cap=1200 cost=60 sym="previous state: req (peer/CID selector, any u32 id/generation); current state: each of the 6 kinds in turn (concrete loop), selector, any u32" bound="palette above; 1-byte strings; unwind 8"
+//@ harness: name=call_merge_idempotent_cb_reqid props=C07 tier=thorough core=0 cap=1200 cost=60 sym="previous state: reqid (peer/CID selector, any u32 id/generation); current state: each of the 6 kinds in turn (concrete loop), selector, any u32" bound="palette above; 1-byte strings; unwind 8"
+//@ harness: name=call_merge_idempotent_cb_scalar props=C07 tier=thorough core=0 cap=1200 cost=60 sym="previous state: scalar (peer/CID selector, any u32 id/generation); current state: each of the 6 kinds in turn (concrete loop), selector, any u32" bound="palette above; 1-byte strings; unwind 8"
+//@ harness: name=call_merge_idempotent_cb_stream props=C07 tier=thorough core=0 cap=1200 cost=60 sym="previous state: stream (peer/CID selector, any u32 id/generation); current state: each of the 6 kinds in turn (concrete loop), selector, any u32" bound="palette above; 1-byte strings; unwind 8"
+//@ harness: name=call_merge_idempotent_cb_unused props=C07 tier=thorough core=0 cap=1200 cost=60 sym="previous state: unused (peer/CID selector, any u32 id/generation); current state: each of the 6 kinds in turn (concrete loop), selector, any u32" bound="palette above; 1-byte strings; unwind 8"
+//@ harness: name=call_merge_idempotent_cb_failed props=C07 tier=thorough core=0 cap=1200 cost=60 sym="previous state: failed (peer/CID selector, any u32 id/generation); current state: each of the 6 kinds in turn (concrete loop), selector, any u32" bound="palette above; 1-byte strings; unwind 8"
+//@ harness: name=call_merge_idempotent_ca_req props=C07 tier=thorough core=0 cap=1200 cost=60 sym="previous state: req (peer/CID selector, any u32 id/generation); current state: each of the 6 kinds in turn (concrete loop), selector, any u32" bound="palette above; 1-byte strings; unwind 8"
+//@ harness: name=call_merge_idempotent_ca_reqid props=C07 tier=thorough core=0 cap=1200 cost=60 sym="previous state: reqid (peer/CID selector, any u32 id/generation); current state: each of the 6 kinds in turn (concrete loop), selector, any u32" bound="palette above; 1-byte strings; unwind 8"
+//@ harness: name=call_merge_idempotent_ca_scalar props=C07 tier=thorough core=0 cap=1200 cost=60 sym="previous state: scalar (peer/CID selector, any u32 id/generation); current state: each of the 6 kinds in turn (concrete loop), selector, any u32" bound="palette above; 1-byte strings; unwind 8"
+//@ harness: name=call_merge_idempotent_ca_stream props=C07 tier=thorough core=0 cap=1200 cost=60 sym="previous state: stream (peer/CID selector, any u32 id/generation); current state: each of the 6 kinds in turn (concrete loop), selector, any u32" bound="palette above; 1-byte strings; unwind 8"
+//@ harness: name=call_merge_idempotent_ca_unused props=C07 tier=thorough core=0 cap=1200 cost=60 sym="previous state: unused (peer/CID selector, any u32 id/generation); current state: each of the 6 kinds in turn (concrete loop), selector, any u32" bound="palette above; 1-byte strings; unwind 8"
+//@ harness: name=call_merge_idempotent_ca_failed props=C07 tier=thorough core=0 cap=1200 cost=60 sym="previous state: failed (peer/CID selector, any u32 id/generation); current state: each of the 6 kinds in turn (concrete loop), selector, any u32" bound="palette above; 1-byte strings; unwind 8"
+//@ harness: name=call_merge_idempotent_cc_req props=C07 tier=thorough core=0 cap=1200 cost=60 sym="previous state: req (peer/CID selector, any u32 id/generation); current state: each of the 6 kinds in turn (concrete loop), selector, any u32" bound="palette above; 1-byte strings; unwind 8"
+//@ harness: name=call_merge_idempotent_cc_reqid props=C07 tier=thorough core=0 cap=1200 cost=60 sym="previous state: reqid (peer/CID selector, any u32 id/generation); current state: each of the 6 kinds in turn (concrete loop), selector, any u32" bound="palette above; 1-byte strings; unwind 8"
+//@ harness: name=call_merge_idempotent_cc_scalar props=C07 tier=thorough core=0 cap=1200 cost=60 sym="previous state: scalar (peer/CID selector, any u32 id/generation); current state: each of the 6 kinds in turn (concrete loop), selector, any u32" bound="palette above; 1-byte strings; unwind 8"
+//@ harness: name=call_merge_idempotent_cc_stream props=C07 tier=thorough core=0 cap=1200 cost=60 sym="previous state: stream (peer/CID selector, any u32 id/generation); current state: each of the 6 kinds in turn (concrete loop), selector, any u32" bound="palette above; 1-byte strings; unwind 8"
+//@ harness: name=call_merge_idempotent_cc_unused props=C07 tier=thorough core=0 cap=1200 cost=60 sym="previous state: unused (peer/CID selector, any u32 id/generation); current state: each of the 6 kinds in turn (concrete loop), selector, any u32" bound="palette above; 1-byte strings; unwind 8"
+//@ harness: name=call_merge_idempotent_cc_failed props=C07 tier=thorough core=0 cap=1200 cost=60 sym="previous state: failed (peer/CID selector, any u32 id/generation); current state: each of the 6 kinds in turn (concrete loop), selector, any u32" bound="palette above; 1-byte strings; unwind 8"
+//@ harness: name=call_merge_symmetric_req props=C08 tier=thorough core=0 cap=1200 cost=60 sym="previous state: req (peer/CID selector, any u32 id/generation); current state: each of the 6 kinds in turn (concrete loop), selector, any u32" bound="palette above; 1-byte strings; unwind 8"
+//@ harness: name=call_merge_symmetric_reqid props=C08 tier=thorough core=0 cap=1200 cost=60 sym="previous state: reqid (peer/CID selector, any u32 id/generation); current state: each of the 6 kinds in turn (concrete loop), selector, any u32" bound="palette above; 1-byte strings; unwind 8"
+//@ harness: name=call_merge_symmetric_scalar props=C08 tier=thorough core=0 cap=1200 cost=60 sym="previous state: scalar (peer/CID selector, any u32 id/generation); current state: each of the 6 kinds in turn (concrete loop), selector, any u32" bound="palette above; 1-byte strings; unwind 8"
+//@ harness: name=call_merge_symmetric_stream props=C08 tier=thorough core=0 cap=1200 cost=60 sym="previous state: stream (peer/CID selector, any u32 id/generation); current state: each of the 6 kinds in turn (concrete loop), selector, any u32" bound="palette above; 1-byte strings; unwind 8"
+//@ harness: name=call_merge_symmetric_unused props=C08 tier=thorough core=0 cap=1200 cost=60 sym="previous state: unused (peer/CID selector, any u32 id/generation); current state: each of the 6 kinds in turn (concrete loop), selector, any u32" bound="palette above; 1-byte strings; unwind 8"
+//@ harness: name=call_merge_symmetric_failed props=C08 tier=thorough core=0 cap=1200 cost=60 sym="previous state: failed (peer/CID selector, any u32 id/generation); current state: each of the 6 kinds in turn (concrete loop), selector, any u32" bound="palette above; 1-byte strings; unwind 8"
 //@ harness: name=call_merge_algebra_glue props=C07,C08 cap=300 cost=5 sym="three state descriptors (kind, selector, number): any" bound="pure logic over the characterisation proved by the never_lost (result == winning input) and accepts_honest (accepted iff honest) harnesses"
 //@ harness: name=call_merge_associative props=C08 tier=thorough core=0 cap=3000 cost=900 sym="three states a,b,c: any kind, selector, any u32" bound="as above"
 //@ harness: name=call_merge_vacuity props=C05,C09,C04,C14,C07,C08 expect=fail cap=900 cost=120 sym="both states any kind" bound="as above"
